@@ -1,5 +1,7 @@
 import Indi.Properties.C07
+import Indi.Properties.Dec.Vector
 import Indi.Properties.C07b
 #print axioms Indi.Dev.C07_response
 #print axioms Indi.Dev.C07_emitted_valid
 #print axioms Indi.Dev.flags_follow_history
+#print axioms Indi.Decisions.vectorEnabled_agrees
